@@ -1,7 +1,7 @@
 (* C05 property theorems: statements only; every proof is [exact lemma]. *)
 From Gv Require Import lib.Bytes lib.Gql C05.Lex C05.Parse C05.Limits C05.Print C05.Spec C05.Tokens
   C05.ProofsLex C05.ProofsLimits C05.ProofsParse C05.ProofsMisc C05.ProofsTotal C05.ProofsRoundtrip C05.ProofsWf
-  C05.ProofsFinal C05.ProofsInline gen.Anchors_C05.
+  C05.ProofsFinal C05.ProofsInline C05.PreFix gen.Anchors_C05.
 From Coq Require Import ZArith.
 
 (* the model uses the rune / keyword / identifier-keyword tables of the Go source, and the source has the repair *)
@@ -124,9 +124,23 @@ Theorem c05_print_fixpoint_partial : forall ind b d r d' r',
 Proof. exact print_fixpoint_partial_proof. Qed.
 Print Assumptions c05_print_fixpoint_partial.
 
-(* without the hypothesis the round trip is false of the faithful model: a block string whose
-   content ends in a quote *)
-Theorem c05_roundtrip_refuted :
-  exists b d, parse_bytes b = Ok d [] /\ parse_bytes (print d) = Err /\ lex_print_ok_b None d = false.
-Proof. exact roundtrip_refuted_proof. Qed.
-Print Assumptions c05_roundtrip_refuted.
+(* HISTORICAL (PreFix.v: the lexer and printer before c05_fix_rt-nul-in-string,
+   c15_fix_block-quote-next-to-whitespace and c05_fix_rt-block-string-edge): the round trip was false.
+   A block string whose content ends in a quote was printed flush against the closing delimiter ... *)
+Theorem c05_roundtrip_refuted_before_fix :
+  exists b d, V0.parse_bytes b = Ok d [] /\ V0.parse_bytes (V0.print d) = Err.
+Proof. exact roundtrip_refuted_before_fix_proof. Qed.
+Print Assumptions c05_roundtrip_refuted_before_fix.
+
+(* ... a NUL byte ended a string but not the input, so a(x: QUOTE a NUL) parsed and its print did not ... *)
+Theorem c05_nul_in_string_refuted_before_fix :
+  exists d, V0.parse_bytes witness_nul_string = Ok d [] /\ V0.parse_bytes (V0.print d) = Err.
+Proof. exact nul_in_string_refuted_before_fix_proof. Qed.
+Print Assumptions c05_nul_in_string_refuted_before_fix.
+
+(* ... and a quote next to the trailing white space of a block string made the lexer cut the content short,
+   so that the document round-tripped to a different tree *)
+Theorem c05_block_content_changes_before_fix :
+  exists d d', V0.parse_bytes witness_block_quote_ws = Ok d [] /\ V0.parse_bytes (V0.print d) = Ok d' [] /\ d' <> d.
+Proof. exact block_content_changes_before_fix_proof. Qed.
+Print Assumptions c05_block_content_changes_before_fix.
